@@ -94,6 +94,11 @@ def replay_lengths_angles(data):
         if name in ("cubic", "orthorhombic"):
             kw = {}
         uc = getattr(UnitCell, name)(*args, **kw)
+    elif how == "reset":
+        uc = UnitCell.from_lengths_and_angles([5.1, 7.2, 9.3], [1.2, 1.7, 1.4])
+        uc.volume()
+        uc.a_star, uc.alpha_star, uc.reciprocal_lattice
+        uc.set_lengths_and_angles(lengths, ang)
     else:
         uc = UnitCell.from_lengths_and_angles(lengths, ang)
     bad = oracle(uc, lengths, cos)
@@ -164,6 +169,49 @@ def _identities(ctx, ex, pc, uc, tag, lengths, angles, check_star=True):
     return out
 
 
+def part_vectors(ctx, UC):
+    """UnitCell(vectors) for an arbitrary right-handed matrix: direct = given, inverse = its inverse, lengths and angles those of the rows"""
+    # -- route 2: vectors -> parameters -> same geometry  (set_vectors on an arbitrary matrix)
+    ex = Explorer()
+    M = np.array([[Sym(z3.Real("m%d%d" % (i, j))) for j in range(3)] for i in range(3)], dtype=object)
+    detM = det3(M)
+    ex.base = [detM.t > 0]
+    paths = ex.run(lambda: UC(M))
+    ctx.add_paths(ex)
+    for p in paths:
+        if p.exc is not None:
+            ctx.harness_error("set_vectors raised %r symbolically" % (p.exc,))
+            continue
+        uc = p.value
+        D, I = uc.direct, uc.inverse
+        P = np.dot(D, I)
+        P2 = np.dot(I, D)
+        res = []
+        for i in range(3):
+            for j in range(3):
+                res.append(ctx.query("vectors:direct.inverse[%d,%d]" % (i, j), p.pc, (P[i, j] == (1 if i == j else 0)).t, ex=ex))
+                res.append(ctx.query("vectors:inverse.direct[%d,%d]" % (i, j), p.pc, (P2[i, j] == (1 if i == j else 0)).t, ex=ex))
+                res.append(ctx.query("vectors:direct=given[%d,%d]" % (i, j), p.pc, (D[i, j] == M[i, j]).t, ex=ex))
+        L = uc.lengths
+        for k in range(3):
+            res.append(ctx.query("vectors:length[%d]" % k, p.pc, ((L[k] * L[k] == sum(M[k, r] * M[k, r] for r in range(3))) & (L[k] > 0)).t, ex=ex))
+        pairs = [(1, 2), (2, 0), (0, 1)]
+        for k in range(3):
+            i, j = pairs[k]
+            dot = sum(M[i, r] * M[j, r] for r in range(3))
+            res.append(ctx.query("vectors:cos-angle[%d]" % k, p.pc, (uc.angles[k].c * L[i] * L[j] == dot).t, ex=ex, timeout=ctx.default_timeout))
+        for r in res:
+            if r.verdict == "cex":
+                Mv = [[float(model_value(r.model, M[i, j].t)) for j in range(3)] for i in range(3)]
+                ctx.violation("vec:set_vectors", "identity fails for vectors", {"M": Mv}, replay_vectors)
+
+
+
+def dependency_sections():
+    """section other properties run because they rest on it (cells built from lattice vectors: supercells, the H/R switch, POSCAR)"""
+    return [("dependency: cell built from its lattice vectors (C12 route 2)", lambda c: part_vectors(c, _load().UnitCell))]
+
+
 def run(ctx):
     t0 = time.time()
     m = _load()
@@ -224,39 +272,23 @@ def run(ctx):
         radangles = [SymAngle(x.c, x.s, "rad") for x in angles]
         handle(tag, paths, ex, lengths, radangles, "degrees" if deg else "radians")
 
-    # -- route 2: vectors -> parameters -> same geometry  (set_vectors on an arbitrary matrix)
+    # -- route 1b: an existing cell (already asked for its volume and reciprocal lengths) is given new lengths and angles: the
+    # cell then is the new one in every respect
     ex = Explorer()
-    M = np.array([[Sym(z3.Real("m%d%d" % (i, j))) for j in range(3)] for i in range(3)], dtype=object)
-    detM = det3(M)
-    ex.base = [detM.t > 0]
-    paths = ex.run(lambda: UC(M))
+    lengths, angles, assume = _sym_params(ex, degrees=False)
+    ex.base = assume
+
+    def reset():
+        uc = UC.from_lengths_and_angles([5.1, 7.2, 9.3], [1.2, 1.7, 1.4])
+        uc.volume()
+        uc.a_star, uc.alpha_star, uc.reciprocal_lattice
+        uc.set_lengths_and_angles(list(lengths), list(angles))
+        return uc
+    paths = ex.run(reset)
     ctx.add_paths(ex)
-    for p in paths:
-        if p.exc is not None:
-            ctx.harness_error("set_vectors raised %r symbolically" % (p.exc,))
-            continue
-        uc = p.value
-        D, I = uc.direct, uc.inverse
-        P = np.dot(D, I)
-        P2 = np.dot(I, D)
-        res = []
-        for i in range(3):
-            for j in range(3):
-                res.append(ctx.query("vectors:direct.inverse[%d,%d]" % (i, j), p.pc, (P[i, j] == (1 if i == j else 0)).t, ex=ex))
-                res.append(ctx.query("vectors:inverse.direct[%d,%d]" % (i, j), p.pc, (P2[i, j] == (1 if i == j else 0)).t, ex=ex))
-                res.append(ctx.query("vectors:direct=given[%d,%d]" % (i, j), p.pc, (D[i, j] == M[i, j]).t, ex=ex))
-        L = uc.lengths
-        for k in range(3):
-            res.append(ctx.query("vectors:length[%d]" % k, p.pc, ((L[k] * L[k] == sum(M[k, r] * M[k, r] for r in range(3))) & (L[k] > 0)).t, ex=ex))
-        pairs = [(1, 2), (2, 0), (0, 1)]
-        for k in range(3):
-            i, j = pairs[k]
-            dot = sum(M[i, r] * M[j, r] for r in range(3))
-            res.append(ctx.query("vectors:cos-angle[%d]" % k, p.pc, (uc.angles[k].c * L[i] * L[j] == dot).t, ex=ex, timeout=ctx.default_timeout))
-        for r in res:
-            if r.verdict == "cex":
-                Mv = [[float(model_value(r.model, M[i, j].t)) for j in range(3)] for i in range(3)]
-                ctx.violation("vec:set_vectors", "identity fails for vectors", {"M": Mv}, replay_vectors)
+    handle("reset_lengths_angles", paths, ex, lengths, [SymAngle(x.c, x.s, "rad") for x in angles], "reset")
+
+    part_vectors(ctx, UC)
 
     # -- route 1 -> route 2: cell from parameters, rebuilt from its vectors, has the same parameters
     ex = Explorer()
